@@ -28,8 +28,11 @@ RULE = ("random operation sequences (2-4 tokens, 27-digit indices, prices over 9
 TRUSTED = ["theorems are for every arithmetic context (cache coherence does not depend on rounding); the driver runs the model under "
            "CPython's Decimal semantics (round-half-even to 35 digits, libmpdec power) so every cached number is compared exactly",
            "`Decimal ** 31536000` in rate_to_apy is the `dpowNat` re-implementation of libmpdec's algorithm (validated bit-exactly by this run)"]
-ASSUMPTIONS = ["the bar's data has an index/rate row, a price and a risk-table row for every token it lists (EnvOK) and lists every token "
-               "that is held (Covers): a KeyError raised midway through a cache fill leaves a partially filled cache and is outside the theorem",
+ASSUMPTIONS = ["theorems: the bar's data has an index/rate row, a price and a risk-table row for every token it lists (EnvOK), lists every "
+               "token that is held (Covers) and has non-zero indices (EnvPos); bars whose price vector lacks a held token are exercised by "
+               "the oracle only (every valuation must raise KeyError, on cold caches and after an interrupted fill alike — repaired by c25cbec)",
+               "theorems exclude one raise: DemeterError('variable_delt < actual_debt_to_liquidate') in _do_liquidate, which the code places "
+               "after the collateral seizure and before the cache resets (unreachable in exact arithmetic; never produced by 139 000 thorough cases)",
                "broker.allow_negative_balance is False (the default)"]
 
 
@@ -41,18 +44,18 @@ def filled(st):
 
 
 def observe_all(m, toks):
-    """every view on a copy that keeps the caches (= what a caller would see now) and on a copy with cold caches.
-    Reads never reset a cache, so reading the views one after the other on the same copy cannot hide a stale one."""
-    out = {}
-    for keep in (True, False):
-        c = A.clone_market(m, keep)
-        o = {}
-        for v in A.VIEWS0:
-            o[v] = A.observe_view(c, v)
-        for v in A.VIEWS1:
-            o[v] = {t: A.observe_view(c, v, t) for t in toks}
-        out[keep] = o
-    return out[True], out[False]
+    """every view on a copy that keeps the caches (= what a caller would see now; reads never reset a cache, so reading
+    the views one after the other on that copy cannot hide a stale one) and, for the from-scratch side, each view on
+    its own copy with all five caches cold (so that a fill interrupted by one view cannot leak into the next)"""
+    warm_m = A.clone_market(m, True)
+    warm, cold = {}, {}
+    for v in A.VIEWS0:
+        warm[v] = A.observe_view(warm_m, v)
+        cold[v] = A.observe_view(A.clone_market(m, False), v)
+    for v in A.VIEWS1:
+        warm[v] = {t: A.observe_view(warm_m, v, t) for t in toks}
+        cold[v] = {t: A.observe_view(A.clone_market(m, False), v, t) for t in toks}
+    return warm, cold
 
 
 def run_sequence(ctx: Ctx, rng, nsteps, reqs, meta, exact_env=False, pandas_status=False):
@@ -73,11 +76,12 @@ def run_sequence(ctx: Ctx, rng, nsteps, reqs, meta, exact_env=False, pandas_stat
             env_next = A.next_env(rng, env, shock)
             if rng.random() < 0.06:
                 env_next["isOpen"] = False
-            if rng.random() < 0.05 and (m._supplies or m._borrows):
+            if rng.random() < 0.12 and (m._supplies or m._borrows):
                 # malformed bar: the price vector lacks a token that is held — every valuation must raise KeyError,
                 # on a cold cache and on whatever an interrupted fill left behind alike
                 held = [k.name for k in list(m._supplies) + list(m._borrows)]
-                drop = rng.choice(held)
+                later = [k.name for k in list(m._supplies)[1:] + list(m._borrows)[1:]]   # not the first key: a fill gets interrupted midway
+                drop = rng.choice(later if later and rng.random() < 0.7 else held)
                 env_next["price"] = {t: p for t, p in env_next["price"].items() if t != drop}
             op = {"kind": "newBar"}
         elif r < 0.42:
@@ -121,8 +125,13 @@ def run_sequence(ctx: Ctx, rng, nsteps, reqs, meta, exact_env=False, pandas_stat
             d = A.diff(w, c) or ""
             ctx.violate(f"stale:{v.split('(')[0]}:after:{op['kind']}:{outcome}",
                         f"after {op} ({outcome}) the view {v} differs from its from-scratch recomputation: {d[:300]}", case)
-        reqs.append({"fn": "aave_specall", "ctx": "py", "env": A.env_json(env), "supplies": s1["supplies"], "borrows": s1["borrows"], "toks": toks})
-        meta.append(("spec", case, cold, toks, op, outcome))
+        held = [k for k, _ in s1["supplies"]] + [k for k, _ in s1["borrows"]]
+        if all(k in env["price"] for k in held):
+            # the closed-form spec is stated for bars whose data covers the tokens held (EnvOK / Covers)
+            reqs.append({"fn": "aave_specall", "ctx": "py", "env": A.env_json(env), "supplies": s1["supplies"], "borrows": s1["borrows"], "toks": toks})
+            meta.append(("spec", case, cold, toks, op, outcome))
+        else:
+            ctx.count("steps_in_a_bar_without_a_price_for_a_held_token")
         was_stale = was_stale_now
         last_kind = op["kind"]
         ctx.impl_traces += 1
